@@ -13,7 +13,7 @@ RULE = ("Real file_util.py processes in a temp directory. Source image: cassette
         "containers or by the independent writers (arbitrary leaders / scattered granule chains), holding 1-5 files "
         "with names in upper, lower or mixed case (in one case of three two files share a name, same or swapped letter case), all kinds (file types 0-3 x both data types), boundary lengths (1..30000 bytes). Target: "
         "--to_cas / --to_dsk / --to_bin; --files absent, a subset spelled in upper / lower / mixed case, or a name "
-        "that matches nothing; chains source -> other kind -> back. Oracle: the independent reader of the target finds "
+        "that matches nothing; chains source -> other kind -> back; in two runs of five both --to_cas and --to_dsk are given at once (either order) and each target is judged. Oracle: the independent reader of the target finds "
         "exactly the selected files in source order with identical type, data type, data, and (machine language) load "
         "and entry addresses, names equal case-insensitively (8 characters); converting back gives the original set; "
         "--to_bin gives the single file's data byte for byte, and with >= 2 files exits non-zero without writing. "
@@ -24,7 +24,7 @@ ASSUMPTIONS = [
     "compared (a tape has none)",
     "zero-length files are not generated (known finding F-C06-empty-file-ends-listing)",
 ]
-HEALTH = {"files_filter": 0.12, "chain": 0.1, "lowercase_name": 0.12, "to_bin": 0.032}
+HEALTH = {"files_filter": 0.12, "chain": 0.1, "lowercase_name": 0.12, "to_bin": 0.032, "both_targets": 0.08}
 EXHAUSTIVE = {}
 
 _NAMES = ["HELLO", "hello2", "World", "a", "Zz9", "LONGNAME", "mixedCas", "x1", "PROG", "data", "Q", "abc"]
@@ -56,7 +56,7 @@ _case = st.fixed_dictionaries(dict(
     target=st.sampled_from(["cas", "dsk", "other", "other", "bin"]),
     select=st.sampled_from(["all", "all", "subset", "subset", "nomatch"]), sel_mask=st.integers(1, 31),
     sel_case=st.sampled_from(["upper", "lower", "as_is", "swap"]), back=st.booleans(), k=st.integers(0, 10 ** 6),
-    dup=st.integers(0, 5)))
+    dup=st.integers(0, 5), both=st.sampled_from([0, 0, 0, 1, 2])))
 
 
 def enumerated(tier, seed):
@@ -181,7 +181,13 @@ def execute(case):
                 return viol("--to_bin wrote different bytes than the file's data", fid="C16:bin-data", labels=labels)
             return ok(labels=labels, nontrivial=nontrivial)
         out1 = "out1." + target
-        res = driver.run_cli("file_util.py", [src, "--to_" + target, out1] + argv_files, cwd=tmp)
+        conv = ["--to_" + target, out1]
+        other = "dsk" if target == "cas" else "cas"
+        if case.get("both"):        # one run that names a cassette and a disk target: each is a conversion of its own
+            labels.append("both_targets")
+            nontrivial = True
+            conv = conv + ["--to_" + other, "outo." + other] if case["both"] == 1 else ["--to_" + other, "outo." + other] + conv
+        res = driver.run_cli("file_util.py", [src] + conv + argv_files, cwd=tmp)
         if res.status != 0 or "Traceback" in res.stderr:
             return viol("conversion {} -> {} {} failed: exit {} {!r}".format(src, out1, argv_files, res.status, (res.stdout + res.stderr)[-200:]),
                         fid="C16:convert-failed", labels=labels)
@@ -198,6 +204,20 @@ def execute(case):
         bad = _compare(got, selected)
         if bad:
             return viol("{} -> {} {}: {}".format(src, out1, argv_files, bad), fid="C16:forward:" + bad.split(":")[0][:12], labels=labels)
+        if case.get("both"):
+            po = os.path.join(tmp, "outo." + other)
+            if not os.path.exists(po):
+                if selected:
+                    return viol("second target outo.{} of {} was not written".format(other, conv), fid="C16:no-target", labels=labels)
+            else:
+                rawo = open(po, "rb").read()
+                try:
+                    goto = _read(other, rawo) if rawo else []
+                except (casref.TapeError, dskref.DiskError) as err:
+                    return viol("target outo.{} of {} is not a well-formed image: {}".format(other, conv, err), fid="C16:target-malformed", labels=labels)
+                bad = _compare(goto, selected)
+                if bad:
+                    return viol("{} {} {}: outo.{}: {}".format(src, conv, argv_files, other, bad), fid="C16:both:" + bad.split(":")[0][:12], labels=labels)
         if case["back"] and selected:
             labels.append("chain")
             nontrivial = True
